@@ -109,4 +109,754 @@ theorem posParams_core (l : List Arg) :
         | zero => exact not_offender_zero _
         | succ j' => rw [offender_cons_false]; exact h4 j' (by omega)
 
+
+/-- index `j` repeats a name of `seen` or an earlier name of the list -/
+def dupOff (seen names : List Nat) (j : Nat) : Prop :=
+  ∃ n, names[j]? = some n ∧ (n ∈ seen ∨ ∃ i, i < j ∧ names[i]? = some n)
+
+theorem dupOff_succ (seen nt : List Nat) (x j : Nat) :
+    dupOff seen (x :: nt) (j + 1) ↔ dupOff (x :: seen) nt j := by
+  unfold dupOff
+  simp only [List.getElem?_cons_succ]
+  constructor
+  · rintro ⟨n, hn, h | ⟨i, hi, h⟩⟩
+    · exact ⟨n, hn, Or.inl (List.mem_cons_of_mem _ h)⟩
+    · cases i with
+      | zero => simp at h; subst h; exact ⟨_, hn, Or.inl (List.mem_cons_self ..)⟩
+      | succ i => exact ⟨n, hn, Or.inr ⟨i, by omega, by simpa using h⟩⟩
+  · rintro ⟨n, hn, h | ⟨i, hi, h⟩⟩
+    · rcases List.mem_cons.1 h with h | h
+      · subst h; exact ⟨_, hn, Or.inr ⟨0, by omega, by simp⟩⟩
+      · exact ⟨n, hn, Or.inl h⟩
+    · exact ⟨n, hn, Or.inr ⟨i + 1, by omega, by simpa using h⟩⟩
+
+theorem dupGo_core (l : List Arg) : ∀ seen : List Nat,
+    (dupGo seen l = none ∧ ∀ j, ¬ dupOff seen (l.map (·.name)) j) ∨
+    (∃ (j : Nat) (a : Arg), l[j]? = some a ∧ dupGo seen l = some (.duplicateArgument, a.off) ∧
+        dupOff seen (l.map (·.name)) j ∧ ∀ j', j' < j → ¬ dupOff seen (l.map (·.name)) j') := by
+  induction l with
+  | nil => intro seen; left; simp [dupGo, dupOff]
+  | cons a t ih =>
+    intro seen
+    by_cases ha : a.name ∈ seen
+    · right
+      refine ⟨0, a, by simp, by simp [dupGo, ha], ⟨a.name, by simp, Or.inl ha⟩, ?_⟩
+      intro j' h; omega
+    · have e : dupGo seen (a :: t) = dupGo (a.name :: seen) t := by simp [dupGo, ha]
+      rw [e]
+      simp only [List.map_cons]
+      rcases ih (a.name :: seen) with ⟨h1, h2⟩ | ⟨j, b, h1, h2, h3, h4⟩
+      · left
+        refine ⟨h1, ?_⟩
+        intro j
+        cases j with
+        | zero =>
+          rintro ⟨n, hn, h | ⟨i, hi, _⟩⟩
+          · simp at hn; subst hn; exact ha h
+          · omega
+        | succ j => rw [dupOff_succ]; exact h2 j
+      · right
+        refine ⟨j + 1, b, by simpa using h1, h2, (dupOff_succ ..).2 h3, ?_⟩
+        intro j' hlt
+        cases j' with
+        | zero =>
+          rintro ⟨n, hn, h | ⟨i, hi, _⟩⟩
+          · simp at hn; subst hn; exact ha h
+          · omega
+        | succ j' => rw [dupOff_succ]; exact h4 j' (by omega)
+
+theorem dupOff_nil (names : List Nat) (j : Nat) : dupOff [] names j ↔ dupOffender names j := by
+  unfold dupOff dupOffender
+  constructor
+  · rintro ⟨n, hn, h | ⟨i, hi, h⟩⟩
+    · simp at h
+    · refine ⟨?_, i, hi, by rw [h, hn]⟩
+      by_cases hj : j < names.length
+      · exact hj
+      · simp [List.getElem?_eq_none (by omega : names.length ≤ j)] at hn
+  · rintro ⟨hj, i, hi, h⟩
+    refine ⟨names[j], by simp [hj], Or.inr ⟨i, hi, ?_⟩⟩
+    rw [h]; simp [hj]
+
+theorem dupName_iff (names : List Nat) : dupName names ↔ ∃ j, dupOffender names j := by
+  unfold dupName dupOffender
+  constructor
+  · rintro ⟨j, h1, h2⟩; exact ⟨j, h1, h2⟩
+  · rintro ⟨j, h1, h2⟩; exact ⟨j, h1, h2⟩
+
+
+/-- item `j` is an offender given the loop state `st` reached before the list -/
+def argOff (st : PAState) (items : List AItem) (j : Nat) : Prop :=
+  (items[j]? = some .pos ∧ (st.anyKw = true ∨ ∃ i, i < j ∧ ∃ a, items[i]? = some a ∧ isKwLike a = true)) ∨
+  (items[j]? = some .star ∧ (st.dstar = true ∨ ∃ i, i < j ∧ items[i]? = some .dstar)) ∨
+  (∃ n, items[j]? = some (.kw n) ∧ (n ∈ st.names ∨ ∃ i, i < j ∧ items[i]? = some (.kw n)))
+
+def PAState.step (st : PAState) : AItem → PAState
+  | .kw n => { st with names := n :: st.names, anyKw := true }
+  | .dstar => { st with dstar := true, anyKw := true }
+  | _ => st
+
+theorem argOff_succ (st : PAState) (x : AItem) (t : List AItem) (j : Nat) :
+    argOff st (x :: t) (j + 1) ↔ argOff (st.step x) t j := by
+  unfold argOff
+  simp only [List.getElem?_cons_succ]
+  constructor
+  · rintro (⟨h, h' | ⟨i, hi, a, ha, hk⟩⟩ | ⟨h, h' | ⟨i, hi, ha⟩⟩ | ⟨n, h, h' | ⟨i, hi, ha⟩⟩)
+    · left; refine ⟨h, Or.inl ?_⟩; cases x <;> simp [PAState.step, h']
+    · left; refine ⟨h, ?_⟩
+      cases i with
+      | zero => simp at ha; subst ha; left; cases x <;> simp_all [PAState.step, isKwLike]
+      | succ i => right; exact ⟨i, by omega, a, by simpa using ha, hk⟩
+    · right; left; refine ⟨h, Or.inl ?_⟩; cases x <;> simp [PAState.step, h']
+    · right; left; refine ⟨h, ?_⟩
+      cases i with
+      | zero => simp at ha; subst ha; left; simp [PAState.step]
+      | succ i => right; exact ⟨i, by omega, by simpa using ha⟩
+    · right; right; refine ⟨n, h, Or.inl ?_⟩; cases x <;> simp [PAState.step, h']
+    · right; right; refine ⟨n, h, ?_⟩
+      cases i with
+      | zero => simp at ha; subst ha; left; simp [PAState.step]
+      | succ i => right; exact ⟨i, by omega, by simpa using ha⟩
+  · rintro (⟨h, h' | ⟨i, hi, a, ha, hk⟩⟩ | ⟨h, h' | ⟨i, hi, ha⟩⟩ | ⟨n, h, h' | ⟨i, hi, ha⟩⟩)
+    · left; refine ⟨h, ?_⟩
+      cases x with
+      | pos => left; simpa [PAState.step] using h'
+      | star => left; simpa [PAState.step] using h'
+      | kw m => right; exact ⟨0, by omega, .kw m, by simp, rfl⟩
+      | dstar => right; exact ⟨0, by omega, .dstar, by simp, rfl⟩
+    · left; exact ⟨h, Or.inr ⟨i + 1, by omega, a, by simpa using ha, hk⟩⟩
+    · right; left; refine ⟨h, ?_⟩
+      cases x with
+      | pos => left; simpa [PAState.step] using h'
+      | star => left; simpa [PAState.step] using h'
+      | kw m => left; simpa [PAState.step] using h'
+      | dstar => right; exact ⟨0, by omega, by simp⟩
+    · right; left; exact ⟨h, Or.inr ⟨i + 1, by omega, by simpa using ha⟩⟩
+    · right; right; refine ⟨n, h, ?_⟩
+      cases x with
+      | pos => left; simpa [PAState.step] using h'
+      | star => left; simpa [PAState.step] using h'
+      | dstar => left; simpa [PAState.step] using h'
+      | kw m =>
+        simp [PAState.step] at h'
+        rcases h' with h' | h'
+        · subst h'; right; exact ⟨0, by omega, by simp⟩
+        · left; exact h'
+    · right; right; exact ⟨n, h, Or.inr ⟨i + 1, by omega, by simpa using ha⟩⟩
+
+
+
+theorem argOff_zero (st : PAState) (x : AItem) (t : List AItem) :
+    argOff st (x :: t) 0 ↔
+      (x = .pos ∧ st.anyKw = true) ∨ (x = .star ∧ st.dstar = true) ∨ (∃ n, x = .kw n ∧ n ∈ st.names) := by
+  unfold argOff
+  simp only [List.getElem?_cons_zero, Option.some.injEq]
+  constructor
+  · rintro (⟨h, h' | ⟨i, hi, _⟩⟩ | ⟨h, h' | ⟨i, hi, _⟩⟩ | ⟨n, h, h' | ⟨i, hi, _⟩⟩)
+    · exact Or.inl ⟨h, h'⟩
+    · omega
+    · exact Or.inr (Or.inl ⟨h, h'⟩)
+    · omega
+    · exact Or.inr (Or.inr ⟨n, h, h'⟩)
+    · omega
+  · rintro (⟨h, h'⟩ | ⟨h, h'⟩ | ⟨n, h, h'⟩)
+    · exact Or.inl ⟨h, Or.inl h'⟩
+    · exact Or.inr (Or.inl ⟨h, Or.inl h'⟩)
+    · exact Or.inr (Or.inr ⟨n, h, Or.inl h'⟩)
+
+theorem parseArgsGo_core (items : List AItem) : ∀ (st : PAState) (off0 : Nat),
+    (st.dstar = true → st.anyKw = true) →
+    (parseArgsGo st (layoutArgs off0 items) = none ∧ ∀ j, ¬ argOff st items j) ∨
+    (∃ (j : Nat) (a : AItem) (o : Nat), (layoutArgs off0 items)[j]? = some (a, o) ∧
+        parseArgsGo st (layoutArgs off0 items) = some (argKind a, o) ∧
+        argOff st items j ∧ ∀ j', j' < j → ¬ argOff st items j') := by
+  induction items with
+  | nil => intro st off0 _; left; simp [parseArgsGo, layoutArgs, argOff]
+  | cons x t ih =>
+    intro st off0 hinv
+    by_cases h0 : argOff st (x :: t) 0
+    · right
+      refine ⟨0, x, off0, by simp [layoutArgs], ?_, h0, fun j' h => by omega⟩
+      rw [argOff_zero] at h0
+      rcases h0 with ⟨h, h'⟩ | ⟨h, h'⟩ | ⟨n, h, h'⟩
+      · subst h; simp [layoutArgs, parseArgsGo, h', argKind]
+      · subst h; simp [layoutArgs, parseArgsGo, h', argKind]
+      · subst h; simp [layoutArgs, parseArgsGo, h', argKind]
+    · have hstep : parseArgsGo st (layoutArgs off0 (x :: t)) =
+          parseArgsGo (st.step x) (layoutArgs (off0 + x.len + 2) t) := by
+        rw [argOff_zero] at h0
+        cases x with
+        | pos =>
+          have h1 : st.anyKw = false := by
+            cases h : st.anyKw <;> simp_all
+          have h2 : st.dstar = false := by
+            cases h : st.dstar
+            · rfl
+            · have := hinv h; simp_all
+          simp [layoutArgs, parseArgsGo, h1, h2, PAState.step]
+        | star =>
+          have h2 : st.dstar = false := by
+            cases h : st.dstar <;> simp_all
+          simp [layoutArgs, parseArgsGo, h2, PAState.step]
+        | kw n =>
+          have h3 : n ∉ st.names := by
+            intro hn; exact h0 (Or.inr (Or.inr ⟨n, rfl, hn⟩))
+          simp [layoutArgs, parseArgsGo, h3, PAState.step]
+        | dstar => simp [layoutArgs, parseArgsGo, PAState.step]
+      have hinv' : (st.step x).dstar = true → (st.step x).anyKw = true := by
+        cases x <;> simp [PAState.step] <;> exact hinv
+      rw [hstep]
+      rcases ih (st.step x) (off0 + x.len + 2) hinv' with ⟨h1, h2⟩ | ⟨j, a, o, h1, h2, h3, h4⟩
+      · left
+        refine ⟨h1, ?_⟩
+        intro j
+        cases j with
+        | zero => exact h0
+        | succ j => rw [argOff_succ]; exact h2 j
+      · right
+        refine ⟨j + 1, a, o, by simpa [layoutArgs] using h1, h2, (argOff_succ ..).2 h3, ?_⟩
+        intro j' hlt
+        cases j' with
+        | zero => exact h0
+        | succ j' => rw [argOff_succ]; exact h4 j' (by omega)
+
+theorem argOff_init (items : List AItem) (j : Nat) :
+    argOff ⟨[], false, false⟩ items j ↔ argOffender items j := by
+  unfold argOff argOffender
+  simp
+
+
+theorem exists_offender_iff (fs : List Bool) :
+    defaultOrderBroken fs ↔ ∃ j, defaultOffender fs j := by
+  unfold defaultOrderBroken defaultOffender
+  constructor
+  · rintro ⟨j, _, h⟩; exact ⟨j, h⟩
+  · rintro ⟨j, h1, h2⟩
+    refine ⟨j, ?_, h1, h2⟩
+    by_cases hj : j < fs.length
+    · exact hj
+    · simp [List.getElem?_eq_none (by omega : fs.length ≤ j)] at h1
+
+
+/-- start offset of item `j` in the rendered argument list (items joined by `, `) -/
+def argStart (items : List AItem) (j : Nat) : Nat := ((items.take j).map (fun a => a.len + 2)).sum
+
+theorem layoutArgs_get (items : List AItem) : ∀ (off j : Nat) (a : AItem) (o : Nat),
+    (layoutArgs off items)[j]? = some (a, o) → items[j]? = some a ∧ o = off + argStart items j := by
+  induction items with
+  | nil => intro off j a o h; simp [layoutArgs] at h
+  | cons x t ih =>
+    intro off j a o h
+    cases j with
+    | zero => simp [layoutArgs] at h; simp [argStart, h.1, h.2]
+    | succ j =>
+      simp [layoutArgs] at h
+      have := ih _ _ _ _ h
+      refine ⟨by simpa using this.1, ?_⟩
+      rw [this.2]; simp [argStart]; omega
+
+theorem exists_argOffender_iff (items : List AItem) :
+    (∃ j, argOffender items j) ↔ posAfterKw items ∨ starAfterDoubleStar items ∨ dupKw items := by
+  have lt : ∀ (j : Nat) (a : AItem), items[j]? = some a → j < items.length := by
+    intro j a h
+    by_cases hj : j < items.length
+    · exact hj
+    · simp [List.getElem?_eq_none (by omega : items.length ≤ j)] at h
+  unfold argOffender posAfterKw starAfterDoubleStar dupKw
+  constructor
+  · rintro ⟨j, h | h | ⟨n, h1, h2⟩⟩
+    · exact Or.inl ⟨j, lt j _ h.1, h⟩
+    · exact Or.inr (Or.inl ⟨j, lt j _ h.1, h⟩)
+    · exact Or.inr (Or.inr ⟨j, lt j _ h1, n, h1, h2⟩)
+  · rintro (⟨j, _, h⟩ | ⟨j, _, h⟩ | ⟨j, _, h⟩)
+    · exact ⟨j, Or.inl h⟩
+    · exact ⟨j, Or.inr (Or.inl h)⟩
+    · exact ⟨j, Or.inr (Or.inr h)⟩
+
+
+
+/-! ### brackets -/
+
+/-- the stack after reading a word (`none`: a closer did not match) -/
+def run : List Sym → List BK → Option (List BK)
+  | [], s => some s
+  | .op k :: r, s => run r (k :: s)
+  | .cl k :: r, s =>
+    match s with
+    | [] => none
+    | t :: s' => if t = k then run r s' else none
+  | .nl :: r, s => run r s
+
+theorem run_append (u v : List Sym) : ∀ s, run (u ++ v) s = (run u s).bind (run v) := by
+  induction u with
+  | nil => intro s; simp [run]
+  | cons x u ih =>
+    intro s
+    cases x with
+    | op k => simp [run, ih]
+    | nl => simp [run, ih]
+    | cl k =>
+      cases s with
+      | nil => simp [run]
+      | cons t s' =>
+        by_cases h : t = k
+        · simp [run, h, ih]
+        · simp [run, h]
+
+theorem matchGo_none_iff (w : List Sym) : ∀ s i, matchGo s i w = none ↔ run w s = some [] := by
+  induction w with
+  | nil => intro s i; cases s <;> simp [matchGo, run]
+  | cons x w ih =>
+    intro s i
+    cases x with
+    | op k => simp [matchGo, run, ih]
+    | nl => simp [matchGo, run, ih]
+    | cl k =>
+      cases s with
+      | nil => simp [matchGo, run]
+      | cons t s' =>
+        by_cases h : t = k
+        · simp [matchGo, run, h, ih]
+        · simp [matchGo, run, h]
+
+theorem dyck_run (w : List Sym) (h : Dyck w) : ∀ s, run w s = some s := by
+  induction h with
+  | nil => intro s; rfl
+  | nl _ ih => intro s; simp [run, ih]
+  | wrap k _ _ ihu ihv =>
+    intro s
+    simp only [run]
+    rw [run_append, ihu (k :: s)]
+    simp [run, ihv]
+
+/-- `w` closes exactly the pending stack `s`: `w = d₀ )ₖ₁ d₁ )ₖ₂ … dₙ` with every `dᵢ` balanced -/
+def Bal : List BK → List Sym → Prop
+  | [], w => Dyck w
+  | k :: s, w => ∃ d r, w = d ++ .cl k :: r ∧ Dyck d ∧ Bal s r
+
+theorem bal_nl (s : List BK) (w : List Sym) (h : Bal s w) : Bal s (.nl :: w) := by
+  cases s with
+  | nil => exact Dyck.nl h
+  | cons k s =>
+    obtain ⟨d, r, e, hd, hr⟩ := h
+    exact ⟨.nl :: d, r, by simp [e], Dyck.nl hd, hr⟩
+
+theorem bal_op (k : BK) (s : List BK) (w : List Sym) (h : Bal (k :: s) w) : Bal s (.op k :: w) := by
+  obtain ⟨d, r, e, hd, hr⟩ := h
+  cases s with
+  | nil => subst e; exact Dyck.wrap k hd hr
+  | cons k' s' =>
+    obtain ⟨d', r', e', hd', hr'⟩ := hr
+    refine ⟨.op k :: (d ++ .cl k :: d'), r', ?_, Dyck.wrap k hd hd', hr'⟩
+    subst e; subst e'; simp
+
+theorem run_bal (w : List Sym) : ∀ s, run w s = some [] → Bal s w := by
+  induction w with
+  | nil => intro s h; simp [run] at h; subst h; exact Dyck.nil
+  | cons x w ih =>
+    intro s h
+    cases x with
+    | op k => exact bal_op k s w (ih _ (by simpa [run] using h))
+    | nl => exact bal_nl s w (ih _ (by simpa [run] using h))
+    | cl k =>
+      cases s with
+      | nil => simp [run] at h
+      | cons t s' =>
+        by_cases ht : t = k
+        · subst ht
+          exact ⟨[], w, by simp, Dyck.nil, ih _ (by simpa [run] using h)⟩
+        · simp [run, ht] at h
+
+theorem run_closes (s : List BK) : run (s.map Sym.cl) s = some [] := by
+  induction s with
+  | nil => rfl
+  | cons k s ih => simp [run, ih]
+
+theorem viable_iff (u : List Sym) : Viable u ↔ (run u []).isSome = true := by
+  constructor
+  · rintro ⟨v, h⟩
+    have := dyck_run _ h []
+    rw [run_append] at this
+    cases hr : run u [] with
+    | none => simp [hr] at this
+    | some s => rfl
+  · intro h
+    cases hr : run u [] with
+    | none => simp [hr] at h
+    | some s =>
+      refine ⟨s.map Sym.cl, ?_⟩
+      have : run (u ++ s.map Sym.cl) [] = some [] := by rw [run_append, hr]; simpa using run_closes s
+      exact run_bal _ [] this
+
+theorem matchGo_ge (w : List Sym) : ∀ s i k off, matchGo s i w = some (k, off) → i ≤ off := by
+  induction w with
+  | nil => intro s i k off h; cases s <;> simp [matchGo] at h; omega
+  | cons x w ih =>
+    intro s i k off h
+    cases x with
+    | op c => have := ih _ _ _ _ (by simpa [matchGo] using h); omega
+    | nl => have := ih _ _ _ _ (by simpa [matchGo] using h); omega
+    | cl c =>
+      cases s with
+      | nil => simp [matchGo] at h; omega
+      | cons t s' =>
+        by_cases ht : t = c
+        · have := ih _ _ _ _ (by simpa [matchGo, ht] using h); omega
+        · simp [matchGo, ht] at h; omega
+
+/-- where and why the matcher stops -/
+theorem matchGo_err (w : List Sym) : ∀ s i0 k off, matchGo s i0 w = some (k, off) →
+    (∃ i c, w[i]? = some (.cl c) ∧ run (w.take i) s = some [] ∧ k = .nesting ∧ off = i0 + i + 1) ∨
+    (∃ i c t s', w[i]? = some (.cl c) ∧ run (w.take i) s = some (t :: s') ∧ t ≠ c ∧ k = .syntax ∧ off = i0 + i) ∨
+    (∃ s', run w s = some s' ∧ s' ≠ [] ∧ k = .eof ∧ off = i0 + w.length) := by
+  induction w with
+  | nil =>
+    intro s i0 k off h
+    cases s with
+    | nil => simp [matchGo] at h
+    | cons t s' => simp [matchGo] at h; right; right; exact ⟨t :: s', rfl, by simp, h.1.symm, by simp [h.2]⟩
+  | cons x w ih =>
+    intro s i0 k off h
+    have lift : ∀ s1, (∀ u, run (x :: u) s = run u s1) → matchGo s1 (i0 + 1) w = some (k, off) →
+        (∃ i c, (x :: w)[i]? = some (.cl c) ∧ run ((x :: w).take i) s = some [] ∧ k = .nesting ∧ off = i0 + i + 1) ∨
+        (∃ i c t s', (x :: w)[i]? = some (.cl c) ∧ run ((x :: w).take i) s = some (t :: s') ∧ t ≠ c ∧ k = .syntax ∧ off = i0 + i) ∨
+        (∃ s', run (x :: w) s = some s' ∧ s' ≠ [] ∧ k = .eof ∧ off = i0 + (x :: w).length) := by
+      intro s1 hs1 h1
+      rcases ih s1 (i0 + 1) k off h1 with ⟨i, c, a, b, e, f⟩ | ⟨i, c, t, s', a, b, ne, e, f⟩ | ⟨s', a, b, e, f⟩
+      · left; exact ⟨i + 1, c, by simpa using a, by simp [List.take_succ_cons, hs1, b], e, by omega⟩
+      · right; left; exact ⟨i + 1, c, t, s', by simpa using a, by simp [List.take_succ_cons, hs1, b], ne, e, by omega⟩
+      · right; right; exact ⟨s', by rw [hs1]; exact a, b, e, by simp; omega⟩
+    cases x with
+    | op c => exact lift (c :: s) (fun u => by simp [run]) (by simpa [matchGo] using h)
+    | nl => exact lift s (fun u => by simp [run]) (by simpa [matchGo] using h)
+    | cl c =>
+      cases s with
+      | nil =>
+        simp [matchGo] at h
+        left; exact ⟨0, c, by simp, by simp [run], h.1.symm, by omega⟩
+      | cons t s' =>
+        by_cases ht : t = c
+        · exact lift s' (fun u => by simp [run, ht]) (by simpa [matchGo, ht] using h)
+        · simp [matchGo, ht] at h
+          right; left; exact ⟨0, c, t, s', by simp, by simp [run], ht, h.1.symm, by omega⟩
+
+
+theorem rawGo_none (w : List Sym) : ∀ (stack : List Frame) (st : PSt) (i : Nat),
+    rawGo stack st i w = none → matchGo (stack.map (·.kind)) i w = none := by
+  induction w with
+  | nil => intro stack st i h; cases stack <;> simp_all [rawGo, matchGo]
+  | cons x w ih =>
+    intro stack st i h
+    cases x with
+    | nl =>
+      simp only [rawGo] at h
+      simp only [matchGo]
+      split at h
+      · exact ih _ _ _ h
+      · exact ih _ _ _ h
+    | op k =>
+      simp only [rawGo] at h
+      simp only [matchGo]
+      split at h
+      · cases k with
+        | paren => exact ih (⟨.paren, false⟩ :: stack) _ _ h
+        | sq => exact ih (⟨.sq, true⟩ :: stack) _ _ h
+        | brace => simp at h
+      · exact ih (⟨k, false⟩ :: stack) _ _ h
+    | cl k =>
+      cases stack with
+      | nil => simp [rawGo] at h
+      | cons f fs =>
+        simp only [rawGo] at h
+        simp only [matchGo, List.map_cons]
+        by_cases hk : f.kind = k
+        · simp only [hk, ne_eq, not_true_eq_false, if_false] at h
+          simp only [hk, if_true]
+          split at h
+          · simp at h
+          · exact ih _ _ _ h
+        · simp [hk] at h
+
+theorem rawGo_not_later (w : List Sym) : ∀ (stack : List Frame) (st : PSt) (i : Nat) (k : Kind) (off : Nat),
+    matchGo (stack.map (·.kind)) i w = some (k, off) →
+    ∃ k' off', rawGo stack st i w = some (k', off') ∧ off' ≤ off := by
+  induction w with
+  | nil =>
+    intro stack st i k off h
+    cases stack with
+    | nil => simp [matchGo] at h
+    | cons f fs => simp [matchGo] at h; exact ⟨.eof, i, by simp [rawGo], by omega⟩
+  | cons x w ih =>
+    intro stack st i k off h
+    cases x with
+    | nl =>
+      simp only [matchGo] at h
+      simp only [rawGo]
+      split
+      · exact ih _ _ _ _ _ h
+      · exact ih _ _ _ _ _ h
+    | op c =>
+      simp only [matchGo] at h
+      simp only [rawGo]
+      split
+      · cases c with
+        | paren => exact ih (⟨.paren, false⟩ :: stack) _ _ _ _ h
+        | sq => exact ih (⟨.sq, true⟩ :: stack) _ _ _ _ h
+        | brace =>
+          have := matchGo_ge _ _ _ _ _ h
+          exact ⟨.syntax, i, rfl, by omega⟩
+      · exact ih (⟨c, false⟩ :: stack) _ _ _ _ h
+    | cl c =>
+      cases stack with
+      | nil => simp [matchGo] at h; exact ⟨.nesting, i + 1, by simp [rawGo], by omega⟩
+      | cons f fs =>
+        simp only [matchGo, List.map_cons] at h
+        simp only [rawGo]
+        by_cases hk : f.kind = c
+        · simp only [hk, if_true] at h
+          simp only [hk, ne_eq, not_true_eq_false, if_false]
+          split
+          · have := matchGo_ge _ _ _ _ _ h
+            exact ⟨.syntax, i, rfl, by omega⟩
+          · exact ih _ _ _ _ _ h
+        · simp [hk] at h
+          exact ⟨.syntax, i, by simp [hk], by omega⟩
+
+
+theorem not_viable_of_run (w : List Sym) (i : Nat) (c : BK) (s : List BK)
+    (hi : w[i]? = some (.cl c)) (hr : run (w.take i) [] = some s)
+    (hbad : ∀ t s', s = t :: s' → t ≠ c) : ¬ Viable (w.take (i + 1)) := by
+  rw [viable_iff]
+  have e : w.take (i + 1) = w.take i ++ [.cl c] := by
+    rw [List.take_add_one]; simp [hi]
+  rw [e, run_append, hr]
+  cases s with
+  | nil => simp [run]
+  | cons t s' => simp [run, hbad t s' rfl]
+
+
+/-! ### indentation -/
+
+theorem cmpNat_eq_cmp (a b : Nat) : cmpNat a b = Spec.cmp a b := rfl
+
+theorem width_lt_of (a b : Level) (p q : Nat) (hp : 0 < p) (ht : a.tabs < b.tabs) (hs : a.spaces ≤ b.spaces) :
+    width a p q < width b p q := by
+  unfold width
+  have h1 : (a.tabs + 1) * p ≤ b.tabs * p := Nat.mul_le_mul_right p ht
+  have h2 : a.spaces * q ≤ b.spaces * q := Nat.mul_le_mul_right q hs
+  rw [Nat.add_mul, Nat.one_mul] at h1
+  omega
+
+/-- `compare_strict` answers `o` exactly when `o` is the comparison of the two indentations for EVERY
+    positive width of a tab and of a space. -/
+theorem compareStrict_sound (a b : Level) (o : Ord3) (h : compareStrict a b = some o) (p q : Nat)
+    (hp : 0 < p) (hq : 0 < q) : Spec.cmp (width a p q) (width b p q) = o := by
+  unfold compareStrict cmpNat at h
+  split at h
+  · -- tabs decide
+    rename_i hc
+    split at hc
+    · -- a.tabs < b.tabs
+      rename_i ht
+      split at h
+      · rename_i hs
+        have := width_lt_of a b p q hp ht hs
+        cases h; unfold Spec.cmp; simp [this]
+      · cases h
+    · split at hc <;> cases hc
+  · rename_i hc
+    split at hc
+    · cases hc
+    · split at hc
+      · cases hc
+      · rename_i h1 h2
+        have ht : b.tabs < a.tabs := by omega
+        split at h
+        · rename_i hs
+          have := width_lt_of b a p q hp ht hs
+          cases h; unfold Spec.cmp
+          have h3 : ¬ width a p q < width b p q := by omega
+          have h4 : ¬ width a p q = width b p q := by omega
+          simp [h3, h4]
+        · cases h
+  · rename_i hc
+    split at hc
+    · cases hc
+    · split at hc
+      · rename_i h1 ht
+        cases h
+        unfold Spec.cmp width
+        rw [ht]
+        by_cases hs : a.spaces < b.spaces
+        · have : a.spaces * q < b.spaces * q := Nat.mul_lt_mul_of_pos_right hs hq
+          simp [hs, this]
+        · by_cases he : a.spaces = b.spaces
+          · simp [he]
+          · have hgt : b.spaces < a.spaces := by omega
+            have : b.spaces * q < a.spaces * q := Nat.mul_lt_mul_of_pos_right hgt hq
+            have h3 : ¬ b.tabs * p + a.spaces * q < b.tabs * p + b.spaces * q := by omega
+            have h4 : ¬ a.spaces * q = b.spaces * q := by omega
+            simp [hs, he, h3, h4]
+      · cases hc
+
+theorem ambiguous_of (a b : Level) (ht : a.tabs < b.tabs) (hs : b.spaces < a.spaces) :
+    Spec.cmp (width a 1 (b.tabs - a.tabs + 1)) (width b 1 (b.tabs - a.tabs + 1)) = .gt ∧
+    Spec.cmp (width a (a.spaces - b.spaces + 1) 1) (width b (a.spaces - b.spaces + 1) 1) = .lt := by
+  constructor
+  · unfold Spec.cmp width
+    have h1 : (b.spaces + 1) * (b.tabs - a.tabs + 1) ≤ a.spaces * (b.tabs - a.tabs + 1) :=
+      Nat.mul_le_mul_right _ hs
+    rw [Nat.add_mul, Nat.one_mul] at h1
+    have h3 : ¬ a.tabs * 1 + a.spaces * (b.tabs - a.tabs + 1) < b.tabs * 1 + b.spaces * (b.tabs - a.tabs + 1) := by omega
+    have h4 : ¬ a.tabs * 1 + a.spaces * (b.tabs - a.tabs + 1) = b.tabs * 1 + b.spaces * (b.tabs - a.tabs + 1) := by omega
+    simp only [h3, h4, if_false]
+  · unfold Spec.cmp width
+    have h1 : (a.tabs + 1) * (a.spaces - b.spaces + 1) ≤ b.tabs * (a.spaces - b.spaces + 1) :=
+      Nat.mul_le_mul_right _ ht
+    rw [Nat.add_mul, Nat.one_mul] at h1
+    have h3 : a.tabs * (a.spaces - b.spaces + 1) + a.spaces * 1 < b.tabs * (a.spaces - b.spaces + 1) + b.spaces * 1 := by omega
+    simp only [h3, if_true]
+
+theorem cmp_swap (x y : Nat) : Spec.cmp x y = .gt ↔ Spec.cmp y x = .lt := by
+  unfold Spec.cmp
+  by_cases h1 : x < y
+  · have : ¬ y < x := by omega
+    have : ¬ y = x := by omega
+    simp_all
+  · by_cases h2 : x = y
+    · simp_all
+    · have : y < x := by omega
+      simp_all
+
+
+
+/-! ### eat_indentation -/
+
+theorem tabAfterSpace_cons (x : Bool) (r : List Bool) :
+    tabAfterSpace (x :: r) ↔ (x = false ∧ true ∈ r) ∨ tabAfterSpace r := by
+  unfold tabAfterSpace
+  constructor
+  · rintro ⟨i, j, hij, hi, hj⟩
+    cases j with
+    | zero => omega
+    | succ j =>
+      cases i with
+      | zero =>
+        left
+        simp at hi hj
+        exact ⟨hi, List.mem_of_getElem? hj⟩
+      | succ i => right; exact ⟨i, j, by omega, by simpa using hi, by simpa using hj⟩
+  · rintro (⟨hx, hm⟩ | ⟨i, j, hij, hi, hj⟩)
+    · obtain ⟨j, hj⟩ := List.getElem?_of_mem hm
+      exact ⟨0, j + 1, by omega, by simp [hx], by simpa using hj⟩
+    · exact ⟨i + 1, j + 1, by omega, by simpa using hi, by simpa using hj⟩
+
+theorem scanWs_spec (ws : List Bool) : ∀ (t s i : Nat),
+    (∃ lvl, scanWs t s i ws = .ok lvl ∧ lvl = ⟨t + ws.count true, s + ws.count false⟩ ∧
+        ¬ tabAfterSpace ws ∧ (s ≠ 0 → true ∉ ws)) ∨
+    (∃ j, scanWs t s i ws = .error (i + j) ∧ ws[j]? = some true ∧
+        (tabAfterSpace ws ∨ (s ≠ 0 ∧ true ∈ ws))) := by
+  induction ws with
+  | nil => intro t s i; left; exact ⟨⟨t, s⟩, by simp [scanWs], by simp, by simp [tabAfterSpace], by simp⟩
+  | cons x r ih =>
+    intro t s i
+    cases x with
+    | true =>
+      by_cases hs : s = 0
+      · rcases ih (t + 1) s (i + 1) with ⟨lvl, h1, h2, h3, h4⟩ | ⟨j, h1, h2, h3⟩
+        · left
+          refine ⟨lvl, by simp [scanWs, hs, ← h1], by simp [h2]; omega, ?_, by simp [hs]⟩
+          rw [tabAfterSpace_cons]; simp [h3]
+        · right
+          refine ⟨j + 1, by simp [scanWs, hs]; rw [← hs, h1]; congr 1; omega, by simpa using h2, ?_⟩
+          rcases h3 with h3 | ⟨h3, _⟩
+          · left; rw [tabAfterSpace_cons]; exact Or.inr h3
+          · exact absurd hs h3
+      · right
+        exact ⟨0, by simp [scanWs, hs], by simp, Or.inr ⟨hs, by simp⟩⟩
+    | false =>
+      rcases ih t (s + 1) (i + 1) with ⟨lvl, h1, h2, h3, h4⟩ | ⟨j, h1, h2, h3⟩
+      · left
+        refine ⟨lvl, by simp [scanWs, h1], by simp [h2]; omega, ?_, ?_⟩
+        · rw [tabAfterSpace_cons]
+          have := h4 (by omega)
+          simp [h3, this]
+        · intro _; simpa using h4 (by omega)
+      · right
+        refine ⟨j + 1, by simp [scanWs]; rw [h1]; congr 1; omega, by simpa using h2, ?_⟩
+        left
+        rw [tabAfterSpace_cons]
+        rcases h3 with h3 | ⟨_, h3⟩
+        · exact Or.inr h3
+        · exact Or.inl ⟨rfl, h3⟩
+
+
+theorem compareStrict_eq_iff (a b : Level) : compareStrict a b = some .eq ↔ a = b := by
+  unfold compareStrict cmpNat
+  constructor
+  · intro h
+    split at h
+    · split at h <;> cases h
+    · split at h <;> cases h
+    · rename_i hc
+      have ht : a.tabs = b.tabs := by
+        split at hc
+        · cases hc
+        · split at hc
+          · assumption
+          · cases hc
+      simp only [Option.some.injEq] at h
+      have hs : a.spaces = b.spaces := by
+        split at h
+        · cases h
+        · split at h
+          · assumption
+          · cases h
+      cases a; cases b; simp_all
+  · intro h; subst h; simp
+
+theorem compareStrict_gt_ne_base (a b : Level) (h : compareStrict a b = some .gt) : a ≠ ⟨0, 0⟩ := by
+  intro e; subst e
+  have := compareStrict_sound _ _ _ h 1 1 (by omega) (by omega)
+  unfold Spec.cmp width at this
+  simp at this
+  split at this
+  · cases this
+  · split at this
+    · cases this
+    · omega
+
+theorem compareStrict_base (a : Level) :
+    compareStrict a ⟨0, 0⟩ = some .eq ∨ compareStrict a ⟨0, 0⟩ = some .gt := by
+  unfold compareStrict cmpNat
+  by_cases ht : a.tabs = 0
+  · by_cases hs : a.spaces = 0
+    · left; simp [ht, hs]
+    · right; simp [ht, hs]
+  · right
+    have : ¬ a.tabs < 0 := by omega
+    simp [ht]
+
+/-- the stack of enclosing levels the lexer maintains: every level is strictly above (for every tab
+    width) all the levels below it -/
+def Chain (stack : List Level) : Prop :=
+  stack.Pairwise (fun x y => compareStrict x y = some .gt)
+
+
+theorem filter_id_pos (ks : List Bool) : 0 < (ks.filter id).length ↔ true ∈ ks := by
+  induction ks with
+  | nil => simp
+  | cons x r ih => cases x <;> simp [ih]
+
+theorem filter_id_lt (ks : List Bool) : (ks.filter id).length < ks.length ↔ false ∈ ks := by
+  induction ks with
+  | nil => simp
+  | cons x r ih =>
+    cases x with
+    | true => simp [ih]
+    | false =>
+      have := List.length_filter_le id r
+      simp; omega
+
+
 end PV.C04
